@@ -80,8 +80,9 @@ func (d *kDB) Plot() chan error {
 			}
 			d.mu.Unlock()
 		case <-stop:
+			// stopped during its very last window: anything below 100 is an unfinished plot
 			d.mu.Lock()
-			d.progress = 20
+			d.progress = 99.9999
 			d.mu.Unlock()
 		}
 		d.mu.Lock()
